@@ -1,8 +1,10 @@
 /-
 C20 — Denoising, smoothing and counting utilities conserve what they must.
 
-Property theorems only; helper lemmas live in `Lemmas/{Venn,Stack,SmoothIdx,Cadzow}.lean` and
-`Analysis/{Rank,Trajectory,Savgol,SmoothConst}.lean`.  Models: `Model/{Venn,Stack,SmoothIdx,Savgol,Cadzow}.lean`.
+Property theorems only; helper lemmas live in `Lemmas/{Venn,Stack,SmoothIdx,Cadzow,C20Index,C20CadzowNp1,C20VennChunks}.lean` and
+`Analysis/{Rank,Trajectory,Savgol,SmoothConst,C20CadzowNp1}.lean`.
+Models: `Model/{Venn,Stack,SmoothIdx,Savgol,Cadzow,C20CadzowNp1}.lean`.
+The integer expressions of the models are tied to the current source text by `Tie/C20.lean` (translator tie).
 
 Not provable here (numeric, checked by the oracle of `harness/props/c20.py` only):
   "rank reduction reduces added noise when the requested rank is below the rank of the data" and
@@ -13,6 +15,9 @@ import IblVerif.Lemmas.Stack
 import IblVerif.Analysis.SmoothConst
 import IblVerif.Analysis.Savgol
 import IblVerif.Analysis.Trajectory
+import IblVerif.Lemmas.C20Index
+import IblVerif.Lemmas.C20VennChunks
+import IblVerif.Analysis.C20CadzowNp1
 
 namespace IblVerif.C20
 
@@ -54,6 +59,30 @@ theorem venn_chunk_exact (sp : List Spike) (off chunk : Nat) (hs : sp.Pairwise (
   unfold chunkOf
   simp only
   rw [slice_eq_filter sp off (off + chunk) hs]
+
+/-- "Regardless of chunking", at full strength for chunk sizes that are whole multiples of the sample bin size: the
+returned dictionary is then a sum over the GLOBAL bin grid (`sample // sbin`, `channel // cbin`) in which the chunk size
+does not occur — region `r + 1` gets, from every global bin, the number of peeling levels of that bin's per-sorter counts
+whose membership code is `r + 1`. -/
+theorem venn_global_bins (sorters : List (List Spike)) (sbin cbin nch c : Nat) (res : List Nat)
+    (hsorted : ∀ sp ∈ sorters, sp.Pairwise (fun p q => p.1 ≤ q.1))
+    (h : venn sorters sbin cbin nch (c * sbin) = .ok res) : vennGlobal sorters sbin cbin nch = .ok res :=
+  venn_eq_vennGlobal sorters sbin cbin nch c res hsorted h
+
+/-- Hence any two such chunk sizes give the same dictionary (time-ordered trains, any number of sorters). -/
+theorem venn_chunk_invariant (sorters : List (List Spike)) (sbin cbin nch c₁ c₂ : Nat) (res₁ res₂ : List Nat)
+    (hsorted : ∀ sp ∈ sorters, sp.Pairwise (fun p q => p.1 ≤ q.1))
+    (h₁ : venn sorters sbin cbin nch (c₁ * sbin) = .ok res₁) (h₂ : venn sorters sbin cbin nch (c₂ * sbin) = .ok res₂) :
+    res₁ = res₂ := by
+  have e₁ := venn_eq_vennGlobal sorters sbin cbin nch c₁ res₁ hsorted h₁
+  have e₂ := venn_eq_vennGlobal sorters sbin cbin nch c₂ res₂ hsorted h₂
+  rw [e₁] at e₂
+  exact Res.ok.inj e₂
+
+/-- Non-vacuity, and the reason for the alignment hypothesis: with a chunk that is not a multiple of the bin size the
+bins of later chunks are shifted, and two spikes in different global bins can fall into one chunk-relative bin. -/
+example : venn [[(3, 0)], [(4, 0)]] 4 1 1 8 = .ok [1, 1, 0] ∧ venn [[(3, 0)], [(4, 0)]] 4 1 1 4 = .ok [1, 1, 0] ∧
+    venn [[(3, 0)], [(4, 0)]] 4 1 1 3 = .ok [0, 0, 1] ∧ vennGlobal [[(3, 0)], [(4, 0)]] 4 1 1 = .ok [1, 1, 0] := by decide
 
 /-- Non-vacuity: three sorters, two chunks, a shared bin and a doubly occupied bin. -/
 example : venn [[(1, 0), (2, 0), (9, 3)], [(1, 1), (8, 3)], [(30, 2)]] 4 2 4 16
@@ -180,6 +209,26 @@ theorem lp_const {α : Type} (F : List α → List α) (c : α)
     lp F (List.replicate n c) l = .ok (List.replicate n c) :=
   IblVerif.Smooth.lp_const F c hF n l hn hl
 
+/-- `lp` keeps the input length for every `pad = num / den > 0`: `lpad = ⌈n · pad⌉` (the expression the translator tie reads
+off the source, `Tie.C20.lp_lpad_eq`) is then at least 1. -/
+theorem lp_len_of_pad {α : Type} (F : List α → List α) (hF : ∀ y, (F y).length = y.length) (x : List α)
+    (num den : Nat) (hx : x ≠ []) (hnum : 0 < num) (hden : 0 < den) :
+    ∃ out, lp F x (lpadRat x.length num den) = .ok out ∧ out.length = x.length := by
+  apply lp_len_partial F hF x _ hx
+  rw [lpadRat_pos_iff _ _ _ hden]
+  have : 0 < x.length := List.length_pos_iff.mpr hx
+  exact Nat.mul_pos this hnum
+
+/-- … and the empty output of the recorded finding is exactly the class `n · pad = 0`. -/
+theorem lpad_zero_iff (n num den : Nat) (hden : 0 < den) : lpadRat n num den = 0 ↔ n * num = 0 := by
+  have := lpadRat_pos_iff n num den hden
+  omega
+
+example : lpadRat 10 1 5 = 2 ∧ lpadRat 3 1 5 = 1 ∧ lpadRat 25 7 25 = 7 ∧ lpadRat 10 0 5 = 0 := by decide
+/-- Non-vacuity of `lp_len_of_pad`: three samples, `pad = 1/5`, the identity as filter. -/
+example : ∃ out, lp (fun y : List Nat => y) [1, 2, 3] (lpadRat 3 1 5) = .ok out ∧ out.length = 3 :=
+  lp_len_of_pad _ (fun _ => rfl) [1, 2, 3] 1 5 (by simp) (by omega) (by omega)
+
 /-- … which a multiplication of the spectrum by a response with `H 0 = 1` does (`ft.lp`: `1 - fcn_cosine(b)(0) = 1`
 for positive band edges). -/
 theorem freq_filter_fixes_constants {N : ℕ} [NeZero N] (H : ZMod N → ℂ) (h0 : H 0 = 1) (c : ℂ) :
@@ -230,6 +279,42 @@ theorem smooth_interp_poly (inv : ℕ → Table ℝ → Table ℝ) (hinv : InvLa
     smoothInterp inv (fun n => (n : ℝ)) interp signal (2 * h + 1) order
       = .ok (interp ((goodIdx signal).map (·.1)) ((goodIdx signal).map (·.2)) signal.length) :=
   smoothInterp_poly inv hinv interp signal h order P hdeg hpw hgood hn
+
+/-- Window index ranges at both borders, for every length `n ≥ window = 2 h + 1`: the left-border loop `range(0, h)`, the
+centre loop `range(h, n - h)` and the right-border loop `range(n - h, n)` write every output sample exactly once (no `nan`
+of `np.full(len(y), np.nan)` survives), and every array read of the three loops (`x[i + j - h]`, `y[i + j - h]`, `y[j]`,
+`y[n - window + j]`, `x[h]`, `x[-h - 1]`) has an index in `[0, n)` — Python never wraps a negative index here. -/
+theorem savgol_index_ranges (n h : Nat) (hn : 2 * h + 1 ≤ n) :
+    (∀ i, i < n → ((i < h ∧ ¬ (h ≤ i ∧ i < n - h) ∧ ¬ (n - h ≤ i)) ∨ (¬ i < h ∧ (h ≤ i ∧ i < n - h) ∧ ¬ (n - h ≤ i)) ∨
+      (¬ i < h ∧ ¬ (h ≤ i ∧ i < n - h) ∧ n - h ≤ i))) ∧
+    (∀ i j, h ≤ i → i < n - h → j < 2 * h + 1 → h ≤ i + j ∧ i + j - h < n) ∧
+    (∀ j, j < 2 * h + 1 → j < n ∧ n - (2 * h + 1) + j < n) ∧ h < n ∧ n - h - 1 < n ∧
+    (h ≤ n - h - 1 ∧ (n - h - 1 < n - h)) :=
+  index_ranges n h hn
+
+example := savgol_index_ranges 7 2 (by omega)
+
+/-- The model's output has one sample per input sample whenever it returns (it does return: `savgol_reproduces`). -/
+theorem savgol_length {α : Type} [Add α] [Sub α] [Mul α] [OfNat α 0] [OfNat α 1]
+    (inv : ℕ → Table α → Table α) (x y out : List α) (window polynom : ℕ)
+    (h : savgol inv x y window polynom = .ok out) : out.length = x.length := by
+  unfold savgol at h
+  simp only at h
+  repeat' split at h
+  all_goals (cases h; try simp)
+
+/-- NaN handling of `smooth_interpolate_savgol` as index logic: `good_idxs` is strictly increasing (a valid abscissa
+vector for `interp1d`) and consists of exactly the positions holding a number, for every NaN pattern. -/
+theorem smooth_interp_nodes {α : Type} (signal : List (Option α)) :
+    ((goodIdx signal).map (·.1)).Pairwise (· < ·) ∧
+    (∀ i v, (i, v) ∈ goodIdx signal ↔ i < signal.length ∧ signal.getD i none = some v) ∧
+    (goodIdx signal).length ≤ signal.length := by
+  refine ⟨goodIdx_increasing signal, mem_goodIdx signal, ?_⟩
+  have : ((goodIdx signal).map (·.1)).length ≤ (List.range signal.length).length := by
+    rw [map_fst_goodIdx]; exact List.length_filter_le _ _
+  simpa using this
+
+example : goodIdx [some (1 : Nat), none, none, some 4, none] = [(0, 1), (3, 4)] := by decide
 
 /-- Non-vacuity of `InvLaw`: Mathlib's matrix inverse (tabulated) satisfies it. -/
 example : ∃ inv : ℕ → Table ℝ → Table ℝ, InvLaw inv := by
@@ -380,5 +465,101 @@ example : ¬ Dense [0, 2, 1, 3] [0, 0, 1, 1] 4 2 := by
   interval_cases c <;> simp at h1 h2
 
 end Rank
+
+/-! ## Channel windowing of `cadzow.cadzow_np1` -/
+section Np1
+open IblVerif.CadzowNp1
+
+/-- On the documented domain of `cadzow_np1` ("ntr - nswx has to be a multiple of nswx - ovx", no padding, `2 ovx ≤ nswx`)
+the function hands `(ntr - nswx) / (nswx - ovx) + 1` windows of exactly `nswx` channels to `denoise`, every window lies
+inside `[0, ntr)`, and every channel belongs to at least one window. -/
+theorem np1_windows (ntr nswx ovx : Nat) (ho : 2 ≤ ovx) (hw : 2 * ovx ≤ nswx) (hn : nswx ≤ ntr)
+    (hm : (ntr - nswx) % (nswx - ovx) = 0) :
+    ∃ ws, windows ntr nswx ovx 0 = .ok ws ∧ ws.length = (ntr - nswx) / (nswx - ovx) + 1 ∧
+      (∀ w ∈ ws, w.2.1 = w.1 + nswx ∧ w.2.1 ≤ ntr) ∧ (∀ i, i < ntr → ∃ w ∈ ws, w.1 ≤ i ∧ i < w.2.1) := by
+  have hp := domain_param ntr nswx ovx hn hm
+  generalize (ntr - nswx) / (nswx - ovx) = m at hp ⊢
+  subst hp
+  refine ⟨_, windows_ok nswx ovx m ho hw, by simp, ?_, ?_⟩
+  · intro w hw'
+    simp only [List.mem_map, List.mem_range] at hw'
+    obtain ⟨k, hk, rfl⟩ := hw'
+    exact ⟨rfl, (windows_inside nswx ovx m k (by omega) (by omega)).1⟩
+  · intro i hi
+    have hs : 0 < nswx - ovx := by omega
+    generalize hS : nswx - ovx = s at *
+    have hdm := Nat.div_add_mod i s
+    have hr := Nat.mod_lt i hs
+    rw [Nat.mul_comm] at hdm
+    by_cases hq : i / s ≤ m
+    · refine ⟨_, List.mem_map.mpr ⟨i / s, List.mem_range.mpr (by omega), rfl⟩, ?_⟩
+      simp only [firstx, lastx, hS]; omega
+    · refine ⟨_, List.mem_map.mpr ⟨m, List.mem_range.mpr (by omega), rfl⟩, ?_⟩
+      have := mul_step_le (s := s) (show m < i / s by omega)
+      simp only [firstx, lastx, hS]; omega
+
+/-- Every channel is reconstructed with total weight 1: on the documented domain with at least two windows
+(`nswx < ntr`), for every taper that splices (`h t + h (ovx - 1 - t) = 1`, the function's own `assert`), the gain windows
+of all channel windows containing a channel add up to exactly 1 — for every `ntr`, `nswx`, `ovx`.  With `denoise` the
+identity on every window (requested rank ≥ the rank of its trajectory matrices: `cadzow_full_rank`) `cadzow_np1` therefore
+returns the spectrum it was given. -/
+theorem np1_weight_one (h : ℕ → ℝ) (ntr nswx ovx : ℕ) (ho : 2 ≤ ovx) (hw : 2 * ovx ≤ nswx) (hn : nswx < ntr)
+    (hm : (ntr - nswx) % (nswx - ovx) = 0) (hh : ∀ t, t < ovx → h t + h (ovx - 1 - t) = 1) (i : ℕ) (hi : i < ntr) :
+    weightAt h ntr nswx ovx 0 i = 1 := by
+  have hp := domain_param ntr nswx ovx (by omega) hm
+  have hm1 : 1 ≤ (ntr - nswx) / (nswx - ovx) := by
+    rw [Nat.one_le_div_iff (by omega)]
+    exact Nat.le_of_dvd (by omega) (Nat.dvd_of_mod_eq_zero hm)
+  generalize (ntr - nswx) / (nswx - ovx) = m at hp hm1
+  subst hp
+  exact weightAt_eq_one h nswx ovx m (by omega) hw hm1 hh i hi
+
+/-- The taper the code uses (`scipy.signal.windows.hann(2 ovx - 1)[0:ovx]`) splices, so all output weights are 1. -/
+theorem np1_weight_one_hann (ntr nswx ovx : ℕ) (ho : 2 ≤ ovx) (hw : 2 * ovx ≤ nswx) (hn : nswx < ntr)
+    (hm : (ntr - nswx) % (nswx - ovx) = 0) :
+    outputWeights (hann ovx) ntr nswx ovx 0 = List.replicate ntr 1 := by
+  unfold outputWeights
+  rw [List.eq_replicate_iff]
+  refine ⟨by simp, ?_⟩
+  intro b hb
+  simp only [List.mem_map, List.mem_range] at hb
+  obtain ⟨i, hi, rfl⟩ := hb
+  exact np1_weight_one (hann ovx) ntr nswx ovx ho hw hn hm (fun t ht => hann_splice ovx t ho ht) i hi
+
+/-- FULL-STRENGTH statement (`nswx ≤ ntr`) is false for the code: a recording of exactly one window (`ntr = nswx`) takes the
+`firstx == 0` branch, whose gain window fades out, and nothing fades in: the last channel gets weight `h 0`, which is 0 for
+the Hann taper. -/
+theorem np1_single_window_counterexample (h : ℕ → ℝ) (nswx ovx : ℕ) (ho : 1 ≤ ovx) (hov : ovx < nswx) :
+    weightAt h nswx nswx ovx 0 (nswx - 1) = h 0 := by
+  have hnw : nwinx nswx nswx ovx 0 = 1 := by
+    have := nwinx_eq nswx ovx 0 hov
+    simpa using this
+  rw [weightAt_eq, hnw]
+  have e : nswx - 1 - (nswx - 1) = 0 := by omega
+  have : ¬ nswx - 1 < nswx - ovx := by omega
+  simp [term, firstx, lastx, kindOf, gw, this, e]
+  omega
+
+theorem np1_single_window_hann (nswx ovx : ℕ) (ho : 1 ≤ ovx) (hov : ovx < nswx) :
+    weightAt (hann ovx) nswx nswx ovx 0 (nswx - 1) = 0 := by
+  rw [np1_single_window_counterexample _ _ _ ho hov, hann_zero]
+
+/-- With padding (`npad > 0`) the test `lastx == ntr` singles out a window in the MIDDLE of the padded rows: it gets no
+fade-out although the next window fades in, and the rows in between are counted twice (witness: `ntr = 64`, `nswx = 16`,
+`ovx = 8`, `npad = 4`, padded row 57 = channel 53 gets weight `1 + h 1`). -/
+theorem np1_npad_counterexample (h : ℕ → ℝ) : weightAt h 64 16 8 4 57 = 1 + h 1 := by
+  rw [weightAt_eq]
+  have : nwinx 64 16 8 4 = 8 := by decide
+  rw [this]
+  simp [Finset.sum_range_succ, term, firstx, lastx, kindOf, gw]
+
+/-- Non-vacuity: NP1 defaults (384 channels, windows of 32, overlap 16) are on the domain: 23 windows. -/
+example : (384 - 32) % (32 - 16) = 0 ∧ nwinx 384 32 16 0 = 23 ∧ kindOf 384 32 16 0 = .first ∧ kindOf 384 32 16 22 = .last ∧
+    kindOf 384 32 16 7 = .mid := by decide
+example : windows 64 16 8 0 = .ok [(0, 16, .first), (8, 24, .mid), (16, 32, .mid), (24, 40, .mid), (32, 48, .mid),
+    (40, 56, .mid), (48, 64, .last)] := by decide
+example : windows 48 16 4 0 = .err "ValueError" ∧ windows 64 16 10 0 = .err "ValueError" := by decide
+
+end Np1
 
 end IblVerif.C20
